@@ -239,6 +239,12 @@ func (d *dumper) node(n ast.Node, depth int) {
 			d.node(x.X, depth)
 			return
 		}
+		// `((x))` is printed `(x)` by both formatters (theorem C08_parser_tree: the only tree
+		// change on parser-shaped trees is this collapse): compare modulo doubled parentheses
+		if in, ok := x.X.(*ast.ParenExpr); ok && len(ast.Comments(x)) == 0 {
+			d.node(in, depth)
+			return
+		}
 	case *ast.Ellipsis:
 		if d.opts.simplify {
 			if id, ok := x.Type.(*ast.Ident); ok && id.Name == "_" {
@@ -247,6 +253,49 @@ func (d *dumper) node(n ast.Node, depth int) {
 				d.line(depth+1, ".Type nil")
 				return
 			}
+		}
+	case *ast.StructLit:
+		if d.opts.simplify {
+			// -s (v2): `[_]: _` / `[string]: _` / `..._` are written `...` and moved to the end
+			keep := x.Elts[:0:0]
+			open := false
+			for _, e := range x.Elts {
+				switch y := e.(type) {
+				case *ast.Ellipsis:
+					if id, ok := y.Type.(*ast.Ident); (y.Type == nil || ok && id.Name == "_") && len(ast.Comments(y)) == 0 {
+						open = true
+						continue
+					}
+				case *ast.Field:
+					if isAnyPattern(y) && len(y.Attrs) == 0 && len(ast.Comments(y)) == 0 {
+						open = true
+						continue
+					}
+				}
+				keep = append(keep, e)
+			}
+			if open {
+				cp := *x
+				cp.Elts = keep
+				d.generic(&cp, depth)
+				d.line(depth+1, ".open true")
+				return
+			}
+		}
+	case *ast.File:
+		// an empty `import ()` group carries nothing: the v2 formatter drops it
+		keep := x.Decls[:0:0]
+		for _, dcl := range x.Decls {
+			if id, ok := dcl.(*ast.ImportDecl); ok && len(id.Specs) == 0 && len(ast.Comments(id)) == 0 {
+				continue
+			}
+			keep = append(keep, dcl)
+		}
+		if len(keep) != len(x.Decls) {
+			cp := *x
+			cp.Decls = keep
+			d.generic(&cp, depth)
+			return
 		}
 	case *ast.Field:
 		if d.opts.simplify {
